@@ -187,8 +187,18 @@ func (c *evalCtx) eval(x ast.Expr) Value {
 			return c.withHeap(func() Value { return c.e.sliceAt(c.s, b, idx) })
 		case VSpecTuple:
 			if idx.IsConst() {
-				return b.E[idx.Val.Int64()]
+				k := idx.Val.Int64()
+				if k < 0 || int(k) >= len(b.E) {
+					panic(execError{"contract: tuple index out of range in " + exprString(x)})
+				}
+				return b.E[k]
 			}
+			// symbolic index: selection chain (out-of-range selects the last element)
+			v := b.E[len(b.E)-1]
+			for k := len(b.E) - 2; k >= 0; k-- {
+				v = mergeValues(Eq(idx, Int64C(int64(k))), b.E[k], v)
+			}
+			return v
 		}
 		panic(execError{fmt.Sprintf("contract: cannot index %T in %s", base, exprString(x))})
 	case *ast.SliceExpr:
@@ -899,6 +909,9 @@ func isRecursionIndex(rd *RecDef, idx int) bool {
 
 var recCompiling = map[string]bool{}
 
+// recFunDecls: declarations of uninterpreted functions needed by a recursive definition.
+var recFunDecls = map[string]map[string]string{}
+
 func (e *Engine) compileRecDef(rd *RecDef) {
 	if rd.compiled || recCompiling[rd.Name] {
 		return
@@ -958,6 +971,20 @@ func (e *Engine) compileRecDef(rd *RecDef) {
 	var sigs, bodies []string
 	used := map[string]bool{}
 	appNames(comps, used)
+	defer func() {
+		// uninterpreted functions mentioned in the body must be declared before the definition
+		decls := map[string]string{}
+		for k, v := range p.funs {
+			if strings.HasPrefix(k, "rec$") {
+				continue
+			}
+			if _, isPrelude := preludeFuns[k]; isPrelude {
+				continue
+			}
+			decls[k] = v
+		}
+		recFunDecls["rec$"+rd.Name+"$0"] = decls
+	}()
 	for k := 0; k < rw; k++ {
 		sigs = append(sigs, fmt.Sprintf("(%s (%s) Int)", smtName(fmt.Sprintf("rec$%s$%d", rd.Name, k)), strings.Join(decl, " ")))
 		bodies = append(bodies, p.str(comps[k]))
